@@ -525,6 +525,15 @@ int main(int argc, char** argv)
                 std::cerr << "Error reading " << startdistfile << std::endl;
                 return EXIT_SUCCESS;
             }
+            if (PhaseSpace::nx != ps_bins) {
+                /* everything below (maps, fields, padding) is set up
+                 * for ps_bins grid points per axis */
+                std::cerr << "Error: Grid size of \"" << startdistfile
+                          << "\" (" << PhaseSpace::nx
+                          << ") does not match GridSize (" << ps_bins
+                          << ")." << std::endl;
+                return EXIT_SUCCESS;
+            }
         } else
         #endif
         if (isOfFileType(".txt",startdistfile)) {
